@@ -15,28 +15,41 @@ JA_NP = (('case', ['nc', 'ga', 'o', 'ni', 'X1']), ('mod', ['nm', 'adn', 'adv', '
          ('fin', ['f', 't', 'X3']))
 
 
-def t_ja_feat(t, base):
+def t_ja_feat(t, base, exotic=False):
     layout = JA_S if base == 'S' else JA_NP
-    return tuple((k, t.pick(vs)) for k, vs in layout)
+    f = tuple((k, t.pick(vs)) for k, vs in layout)
+    if exotic and t.chance(60):
+        # three-part features are ordered key=value triples: the same pairs in another order, or a
+        # repeated key, are different feature values (never in the shipped inventories, used for C05 / C13)
+        k = t.below(4)
+        if k == 0:
+            f = (f[1], f[0], f[2])
+        elif k == 1:
+            f = (f[2], f[1], f[0])
+        elif k == 2:
+            f = (f[0], f[2], f[1])
+        else:
+            f = (f[0], f[0], f[2])
+    return f
 
 
-def t_atom(t, system, punct=True):
+def t_atom(t, system, punct=True, exotic=False):
     if system == 'en':
         if punct and t.chance(48):
             return A(t.pick(EN_PUNCT))
         return A(t.pick(EN_BASES), t.pick(EN_FEATS))
     b = t.pick(['S', 'NP'])
-    return A(b, t_ja_feat(t, b))
+    return A(b, t_ja_feat(t, b, exotic))
 
 
-def t_cat(t, system, depth=3, bar=False, punct=True):
+def t_cat(t, system, depth=3, bar=False, punct=True, exotic=False):
     """random category model; depth bounds nesting, zeros give an atom"""
     if depth <= 0 or not t.chance(150):
-        return t_atom(t, system, punct)
+        return t_atom(t, system, punct, exotic)
     sl = SLASHES_BAR if bar else SLASHES
-    left = t_cat(t, system, depth - 1, bar, punct)
+    left = t_cat(t, system, depth - 1, bar, punct, exotic)
     s = t.pick(sl)
-    right = t_cat(t, system, depth - 1, bar, punct)
+    right = t_cat(t, system, depth - 1, bar, punct, exotic)
     return F(left, s, right)
 
 
@@ -148,6 +161,10 @@ def mutate_one(draw_from, m, system):
                         if v != x[2][i][1]:
                             f = tuple((kk, v if j == i else vv) for j, (kk, vv) in enumerate(x[2]))
                             out.append(rebuild(A(x[1], f)))
+                f = x[2]
+                for perm in ((f[1], f[0], f[2]), (f[0], f[2], f[1]), (f[2], f[1], f[0])):
+                    if perm != f:
+                        out.append(rebuild(A(x[1], perm)))
         else:
             for s in SLASHES_BAR:
                 if s != x[2]:
